@@ -88,7 +88,7 @@ def _cell(draw, max_b, max_n):
 @st.composite
 def _spec(draw, tier):
     ncell = draw(st.integers(1, 3))
-    cells = [draw(_cell(4, 3)) for _ in range(ncell)]
+    cells = [draw(_cell(6, 3)) for _ in range(ncell)]
     N = sum(len(b) for c in cells for b in c["branches"])
     T = draw(st.integers(4, 10))
     stim = draw(gn.stimuli(N, T, max_stim=2, min_stim=1))
